@@ -94,4 +94,12 @@ CHECKS = {
         "write-set argument.",
    note="Trusted base: bit equality of float arrays; dispatcher.py_func is the source numba compiles. numba's automatic array-expression parallelisation is only covered by the schedule runs.",
    technique="runtime monitoring: differential execution (history, repetition, thread schedules) + write-set tracing of parallel kernels + input snapshots"),
+ "C04": dict(category="exploration",
+   text="Every matrix the real decay / decay-sequential / decay-parallel megacomplexes return for generated compartmental schemes (7 topologies, 2-5 compartments, "
+        "all declaration orders up to 4 compartments, six decades of rates, all population patterns, exclude_from_normalize) is compared column-by-label with "
+        "expm(K t) j (float64 expm, 30-digit mpmath expm as arbiter) with a tolerance given by the conditioning of the mathematical problem; plus conservation, "
+        "sequential/parallel vs general equivalence and the rates / lifetimes / A-matrix / DAS / k_matrix of real optimisation results. Recorders show which "
+        "solution path (closed form / eigen) was taken.",
+   note="Trusted base: scipy expm, mpmath expm, the oracle's own K assembly (vf/ref/kinetics.py). K with complex / near-degenerate eigenvalues or cond(V)>1e8 is outside the property (skipped, counted).",
+   technique="runtime monitoring: postcondition-style oracle (matrix exponential) on the real megacomplex evaluations over generated schemes; path recorders"),
 }
